@@ -293,6 +293,33 @@ func VerifC13_QueryStreamFailure() {
 		api.Handle([]byte("q9|cancel"))
 		rt.Quiesce(time.Second)
 	}
+	if sawError {
+		// the operation has ended: its ID is free for a new subscription
+		c13OnReply = nil
+		at := len(c13Replies)
+		api.Handle(c13Msg("q9", "sub", "query tdb:q/"))
+		rt.Quiesce(time.Second)
+		api.Handle(append(c13Msg("w1", "create", "tdb:q/new|"), 'J', '{', '}'))
+		rt.Quiesce(time.Second)
+		api.Handle([]byte("q9|cancel"))
+		rt.Quiesce(time.Second)
+		announced, dones := 0, 0
+		for _, r := range c13Replies[at:] {
+			if !bytes.HasPrefix(r, []byte("q9|")) {
+				continue
+			}
+			switch c13Kind(r) {
+			case "new", "upd":
+				announced++
+			case "done":
+				dones++
+			case "error":
+				rt.Assert(false, "streamfailure/id-of-the-ended-operation-can-be-used-again")
+			}
+		}
+		rt.Assert(announced == 1, "streamfailure/new-subscription-under-the-id-announces-the-write")
+		rt.Assert(dones == 1, "streamfailure/new-subscription-ends-with-done")
+	}
 	rt.Reach("streamfailure-end")
 }
 
